@@ -18,6 +18,7 @@ def mk_sample(rng, s, phase, trivial=False):
     return a, vlib.w32(phase + sum(x for x, y in zip(a, s) if y))
 
 def run(ctx):
+    import os; os.environ['MALLOC_PERTURB_'] = '165'     # every block the harness processes get from or return to the allocator is filled: memory that a routine never wrote does not look like zeros by luck
     thorough = ctx.tier == 'thorough'
     rng = ctx.rng
     ctx.rule = ('through the public gate API at full size, both default parameter sets (thorough: five back-ends x two builds): (i) trivial noiseless inputs whose b values put the gate\'s internal '
@@ -59,7 +60,7 @@ def run(ctx):
             for gi, g in enumerate(GATES):
                 for a in (0, 1):
                     for b in (0, 1):
-                        for kind in (kinds if thorough else [kinds[(gi + 2 * a + b) % 4], 'noisy' + rng.choice(['+', '-', '+-'])]):
+                        for kind in (kinds if thorough else [kinds[(gi + 2 * a + b) % 4], 'noisy' + rng.choice(['+', '-', '+-'])] + (['trivial'] if (a, b) == (gi % 2, (gi // 2) % 2) else [])):      # 'trivial': both inputs are constants (bootsCONSTANT outputs)
                             ea, eb = {'fresh': (rng.randrange(-2**17, 2**17), rng.randrange(-2**17, 2**17)), 'noisy+': (ERR, ERR), 'noisy-': (-ERR, -ERR),
                                       'noisy+-': (ERR, -ERR), 'noisy-+': (-ERR, ERR), 'trivial': (0, 0)}[kind]
                             ca = mk_sample(rng, s, (MU if a else -MU) + ea, kind == 'trivial'); cb = mk_sample(rng, s, (MU if b else -MU) + eb, kind == 'trivial')
